@@ -867,6 +867,7 @@ func runC20(c *Ctx) {
 	ruleTicksOfArgument(c, p, "C20.ticks-of-arg")
 	ruleDayCarry(c, p, "C20.day-carry")
 	ruleAppendTail(c, p, "C20.tail")
+	ruleLimbPairs(c, p, "C20.limbs")
 	ruleResetKeepsParameters(c, p, "C20.reset-keeps")
 	rulePerElementZone(c, p, "C20.per-element")
 
@@ -1009,6 +1010,19 @@ func ruleScale(c *Ctx, p *core.Program, rule string) {
 				r *= 10
 			}
 			return r
+		}
+		// Scale may be a conversion of another method of Precision that holds the table (Duration):
+		// the table is looked for there when Scale itself only calls it and converts the result
+		if len(sc.Blocks) == 1 {
+			if ret, ok := sc.Blocks[0].Instrs[len(sc.Blocks[0].Instrs)-1].(*ssa.Return); ok && len(ret.Results) == 1 {
+				if cl, ok := stripConv(ret.Results[0]).(*ssa.Call); ok {
+					if g := core.StaticFn(cl); g != nil && g.Blocks != nil && pkgOf(g) != nil && pkgOf(g).Path() == core.PkgProto && len(cl.Call.Args) == 1 {
+						if _, isParam := stripConv(cl.Call.Args[0]).(*ssa.Parameter); isParam {
+							sc = g
+						}
+					}
+				}
+			}
 		}
 		// (b) table form
 		for _, b := range sc.Blocks {
